@@ -237,9 +237,10 @@ def run_case(case):
             return res
         obj.zero_grad()
         # ---- directional finite differences
-        tolrel = 5e-2 if b.umnn else 2e-5
+        umnn_any = b.umnn or _has(case["spec"], ("ar_umnn", "c_umnn"))        # (also as a part of a composite)
+        tolrel = 5e-2 if umnn_any else 2e-5
         if _has(case["spec"], ("c_cub", "ar_cub", "cdf_cub", "fn_cub")) and (target == "inverse" or _has(case["spec"], ("inverse",))):
-            tolrel = 2e-4   # cubic inverse: autograd differentiates the closed-form root (with its cancellation) plus two Newton steps
+            tolrel = max(tolrel, 2e-4)   # cubic inverse: autograd differentiates the closed-form root (with its cancellation) plus two Newton steps
 
         one_sided = [0.0, 0.0]
 
@@ -302,7 +303,7 @@ def run_case(case):
                 res.inconclusive += 1
                 res.labels.append("kink_at_the_point")
                 continue
-            if abs(f1 - f2) > 1e-4 * (1 + abs(f1)) * (20 if b.umnn else 1):
+            if abs(f1 - f2) > 1e-4 * (1 + abs(f1)) * (20 if umnn_any else 1):
                 res.inconclusive += 1          # the two step sizes disagree: a kink lies within h of the point
                 res.labels.append("kink")
                 continue
